@@ -193,6 +193,10 @@ func verifLemmaProgress(g *Graph, t *Task) {}
 //@ spec evBody(e Event, id string, cur string) string =
 //@     ite(e.Type == "body" && decOK_BodyUpdateEvent(content(e.Data)) && dec_BodyUpdateEvent(content(e.Data)).ID == id
 //@           && parseOK(dec_BodyUpdateEvent(content(e.Data)).TS), dec_BodyUpdateEvent(content(e.Data)).Body, cur)
+//@ spec evEpic(e Event, id string, cur string) string =
+//@     ite(e.Type == "epic" && decOK_EpicAssignEvent(content(e.Data)) && dec_EpicAssignEvent(content(e.Data)).ID == id
+//@           && parseOK(dec_EpicAssignEvent(content(e.Data)).TS), dec_EpicAssignEvent(content(e.Data)).EpicID, cur)
+//@ spec effEpic(evs []Event, id string, b string) string = foldl8(evEpic, evs, b, id)
 //@ spec effTitle(evs []Event, id string, t string) string = foldl8(evTitle, evs, t, id)
 //@ spec effBody(evs []Event, id string, b string) string = foldl8(evBody, evs, b, id)
 //@ spec effState(evs []Event, id string, s string) string = foldl8(evState, evs, s, id)
@@ -337,6 +341,8 @@ func verifLemmaProgress(g *Graph, t *Task) {}
 //@   step [text] forall k string :: old(has(graph.Tasks, k)) && has(graph.Tasks, k) ==>
 //@        graph.Tasks[k].Title == evTitle(events[index-1], k, old(graph.Tasks[k].Title)) &&
 //@        graph.Tasks[k].Body == evBody(events[index-1], k, old(graph.Tasks[k].Body))
+//@   step [epic] forall k string :: old(has(graph.Tasks, k)) && has(graph.Tasks, k) ==>
+//@        graph.Tasks[k].EpicID == evEpic(events[index-1], k, old(graph.Tasks[k].EpicID))
 //@   step [created-from-event] forall k string :: !old(has(graph.Tasks, k)) && has(graph.Tasks, k) ==>
 //@        (events[index-1].Type == "new_task" || events[index-1].Type == "new_epic") && decOK_NewTaskEvent(content(events[index-1].Data)) &&
 //@        dec_NewTaskEvent(content(events[index-1].Data)).ID == k &&
@@ -827,11 +833,6 @@ func verifLemmaProgress(g *Graph, t *Task) {}
 //@   ensures [one-commit] commits <= old(commits) + 1
 //@   modifies ghost logv, ghost commits, ghost appended, ghost logWrites, ghost tailTorn, ghost tmpStage
 
-//@ func compactEvents
-//@   trusted (for the lock protocol only) the round-trip contract of compaction is the subject of C05
-//@   requires [wf] wfMaps(graph)
-//@   ensures [true] true
-//@   modifies nothing
 //@ func RunCompact$1
 //@   requires [ex] lk == 2
 //@   ensures [fail-unchanged] ret != nil ==> logv == old(logv) && commits == old(commits)
@@ -1373,3 +1374,75 @@ func verifLemmaProgress(g *Graph, t *Task) {}
 //@   canary  [fails] ret == nil
 //@   modifies ghost lk, ghost epoch, ghost blocking, ghost fsWrites, ghost fsExists, ghost logv, ghost commits, ghost appended, ghost logWrites, ghost tailTorn, ghost tmpStage, ghost readEpoch
 //@   modifies ghost stdoutJSON, ghost stdoutText, ghost stderrText
+
+
+// ---- compaction (C05): what compactEvents emits per live item ----
+//@ spec cState(t *Task, m *TaskMeta) string = ite(m != nil && m.CreatedState != "", m.CreatedState, t.State)
+//@ spec cTitle(t *Task, m *TaskMeta) string = ite(m != nil && m.CreatedTitle != "", m.CreatedTitle, t.Title)
+//@ spec cBody(t *Task, m *TaskMeta) string = ite(m != nil && m.CreatedBody != "", m.CreatedBody, t.Body)
+//@ spec cEpic(t *Task, m *TaskMeta) string = ite(m != nil && m.CreatedEpicIDSet, m.CreatedEpicID, t.EpicID)
+//@ spec isCreateFor(e Event, t *Task, m *TaskMeta) bool =
+//@     e.Type == ite(t.IsEpic, "new_epic", "new_task") && decOK_NewTaskEvent(content(e.Data)) && allocated(e.Data) &&
+//@     dec_NewTaskEvent(content(e.Data)).ID == t.ID && dec_NewTaskEvent(content(e.Data)).UUID == t.UUID &&
+//@     dec_NewTaskEvent(content(e.Data)).EpicID == cEpic(t, m) && dec_NewTaskEvent(content(e.Data)).State == cState(t, m) &&
+//@     dec_NewTaskEvent(content(e.Data)).Title == cTitle(t, m) && dec_NewTaskEvent(content(e.Data)).Body == cBody(t, m)
+//@ spec metaOf(g *Graph, id string) *TaskMeta = ite(has(g.Meta, id), g.Meta[id], nil)
+//@ spec groupOf(evs []Event, s int) []Event = window(evs, s + 1, ite(len(evs) - s - 1 < 5, len(evs) - s - 1, 5))
+//@ func sortedTasks$1
+//@   requires [idx] 0 <= i && i < len(values) && 0 <= j && j < len(values)
+//@   requires [elems] forall k int :: 0 <= k && k < len(values) ==> values[k] != nil
+//@   ensures [less] ret <==> values[i].ID < values[j].ID
+//@   modifies nothing
+//@ func sortedTasks
+//@   option elems-index
+//@   requires [wf] tasks != nil && (forall k string :: has(tasks, k) ==> tasks[k] != nil && tasks[k].ID == k)
+//@   ensures [members] forall t *Task :: contains(ret, t) <==> (t != nil && has(tasks, t.ID) && tasks[t.ID] == t)
+//@   ensures [fresh] ret == nil || fresh(ret)
+//@   modifies nothing
+//@ loop 0 range tasks
+//@   invariant [members] forall t *Task :: contains(values, t) <==> (t != nil && visited(t.ID) && has(tasks, t.ID) && tasks[t.ID] == t)
+//@   invariant [fresh] fresh(values)
+//@ func sortedMapKeys
+//@   ensures [members] forall x string :: contains(ret, x) <==> has(items, x)
+//@   ensures [fresh] ret == nil || fresh(ret)
+//@   modifies nothing
+//@ loop 0 range items
+//@   invariant [members] forall x string :: contains(keys, x) <==> visited(x)
+//@   invariant [fresh] fresh(keys)
+//@ func compactEvents
+//@   option elems-index
+//@   requires [wf] wfMaps(graph) && wfTasks(graph)
+//@   ensures [true] true
+//@   modifies nothing
+//@ loop 0 range tasks
+//@   invariant [fresh] (events == nil || fresh(events))
+//@   invariant [alloc] forall k int :: 0 <= k && k < len(events) ==> allocated(events[k].Data)
+//@   step [create:prefix,results-type,alloc] len(events) > old(len(events)) && isCreateFor(events[old(len(events))], tasks[index-1], metaOf(graph, tasks[index-1].ID))
+//@   step [state:prefix,results-type,alloc] effState(groupOf(events, old(len(events))), tasks[index-1].ID, cState(tasks[index-1], metaOf(graph, tasks[index-1].ID))) == tasks[index-1].State
+//@   step [claim-none:prefix,results-type,alloc] tasks[index-1].ClaimedBy == "" ==> effClaim(groupOf(events, old(len(events))), tasks[index-1].ID, "") == ""
+//@   step [claim-kept:prefix,results-type,alloc] tasks[index-1].ClaimedBy != "" && !clears(tasks[index-1].State) ==>
+//@        effClaim(groupOf(events, old(len(events))), tasks[index-1].ID, "") == tasks[index-1].ClaimedBy
+//@   step [title:prefix,results-type,alloc] effTitle(groupOf(events, old(len(events))), tasks[index-1].ID, cTitle(tasks[index-1], metaOf(graph, tasks[index-1].ID))) == tasks[index-1].Title
+//@   step [results-tail:prefix,results,alloc] len(events) - old(len(events)) - 1 - len(tasks[index-1].Results) >= 0 && len(events) - old(len(events)) - 1 - len(tasks[index-1].Results) <= 5 &&
+//@        (forall j int :: 0 <= j && j < len(tasks[index-1].Results) ==>
+//@            isResultFor(events[len(events) - len(tasks[index-1].Results) + j], tasks[index-1].ID) &&
+//@            resultIs(tasks[index-1].Results[len(tasks[index-1].Results) - 1 - j], events[len(events) - len(tasks[index-1].Results) + j]))
+//@   step [history-kept:prefix,alloc] forall k int :: 0 <= k && k < old(len(events)) ==> events[k] == old(events[k]) && content(events[k].Data) == old(content(events[k].Data))
+//@   step [body:prefix,results-type,alloc] effBody(groupOf(events, old(len(events))), tasks[index-1].ID, cBody(tasks[index-1], metaOf(graph, tasks[index-1].ID))) == tasks[index-1].Body
+//@   step [epic:prefix,results-type,alloc] !tasks[index-1].IsEpic ==> effEpic(groupOf(events, old(len(events))), tasks[index-1].ID, cEpic(tasks[index-1], metaOf(graph, tasks[index-1].ID))) == tasks[index-1].EpicID
+//@ loop 1 for
+//@   invariant [fresh] fresh(events) && 0 - 1 <= i && i < len(task.Results)
+//@   invariant [alloc] forall k int :: 0 <= k && k < len(events) ==> allocated(events[k].Data)
+//@   invariant [prefix:alloc] len(events) >= atentry(len(events)) && (forall k int :: 0 <= k && k < atentry(len(events)) ==> events[k] == atentry(events[k]) && content(events[k].Data) == atentry(content(events[k].Data)))
+//@   invariant [results-type] forall k int :: atentry(len(events)) <= k && k < len(events) ==> events[k].Type == "result"
+//@   invariant [results:alloc] len(events) - atentry(len(events)) == len(task.Results) - 1 - i &&
+//@        (forall j int :: 0 <= j && j < len(events) - atentry(len(events)) ==>
+//@            isResultFor(events[atentry(len(events)) + j], task.ID) && resultIs(task.Results[len(task.Results) - 1 - j], events[atentry(len(events)) + j]))
+//@ loop 2 range fromIDs
+//@   invariant [fresh] events == nil || fresh(events)
+//@   invariant [alloc] forall k int :: 0 <= k && k < len(events) ==> allocated(events[k].Data)
+//@ loop 3 range toIDs
+//@   invariant [fresh] events == nil || fresh(events)
+//@   step [link:alloc] len(events) == old(len(events)) + 1 && planLinkEvent(events[old(len(events))], from, toIDs[index-1]) &&
+//@        (forall k int :: 0 <= k && k < old(len(events)) ==> events[k] == old(events[k]) && content(events[k].Data) == old(content(events[k].Data)))
+//@   invariant [alloc] forall k int :: 0 <= k && k < len(events) ==> allocated(events[k].Data)
